@@ -445,7 +445,20 @@ fn make_mmap(tmpfile: &mut NamedTempFile, size: Option<usize>) -> Result<Option<
                 tmpfile.path().display()
             )
         })?;
-        Ok(unsafe { MmapMut::map_mut(tmpfile.as_file()).ok() })
+        match unsafe { MmapMut::map_mut(tmpfile.as_file()) } {
+            Ok(mmap) => Ok(Some(mmap)),
+            Err(_) => {
+                // Plain writes are used instead. They start from an empty
+                // file, otherwise the preallocated tail would stay in it.
+                tmpfile.as_file().set_len(0).with_context(|| {
+                    format!(
+                        "Failed to reset file length for temp file at {}",
+                        tmpfile.path().display()
+                    )
+                })?;
+                Ok(None)
+            }
+        }
     } else {
         Ok(None)
     }
